@@ -415,6 +415,29 @@ def accuracy_oracle(run):
             k = int((dd / lim).argmax())
             bad.append({"kind": "accuracy", "what": "Bmad-X Dipole float32 tracking vs float64 tracking", "angle": ang, "particle": k // 7, "coordinate": k % 7,
                         "float32": float(o32.reshape(-1)[k]), "float64": float(o64.reshape(-1)[k])})
+    # (4e) splitting a float64 element: the slices carry L/n (and angle/n) to float64 round-off, not a float32-rounded fraction
+    for cls, extra in (("Drift", {}), ("Quadrupole", {"k1": 1.7}), ("HorizontalCorrector", {"angle": 1.3e-3}), ("VerticalCorrector", {"angle": -2.1e-3})):
+        for n in (3, 7, 10):
+            L = 0.7
+            kw = {k: torch.tensor(v, dtype=tdt) for k, v in extra.items()}
+            el = getattr(cheetah, cls)(length=torch.tensor(L, dtype=tdt), dtype=tdt, **kw)
+            try:
+                pieces = el.split(torch.tensor(L / (n - 0.5), dtype=tdt))
+            except Exception:
+                run.count("split_exception_" + cls)
+                continue
+            run.add_case(["accuracy", "split", cls, n], True)
+            if len(pieces) != n:
+                continue          # the count is C16's subject
+            for pc in pieces:
+                for attr, whole in [("length", L)] + [(a, v) for a, v in extra.items() if a == "angle"]:
+                    got = float(getattr(pc, attr))
+                    if getattr(pc, attr).dtype != tdt:
+                        bad.append({"kind": "accuracy", "what": f"{cls}.split: slice buffer `{attr}` has dtype {getattr(pc, attr).dtype}", "n": n})
+                    elif abs(got - whole / n) > 4e-16 * abs(whole / n):
+                        bad.append({"kind": "accuracy", "what": f"{cls}.split in float64: slice `{attr}` is not {attr}/n to float64 round-off", "n": n,
+                                    "got": got, "expected": whole / n, "rel_err": abs(got - whole / n) / abs(whole / n)})
+                        break
     # (5) tracking through a small lattice: float32 vs float64
     for _ in range(10):
         lat = realgen.gen_lattice(run.rng, n_max=4, depth=0, method="cheetah",
